@@ -231,6 +231,9 @@ def run(case):
     # ---- injected ---------------------------------------------------------
     orig = sig_summary(sig_f)
     inj_sets = [[n] for n in names_kw] + [list(c) for c in itertools.combinations(names_kw, 2)][:6] + [['zz_absent']]
+    # absent and present names mixed, in both orders (with **kwargs the absent one is tolerated, the present one must still go)
+    for n in names_kw[:2] + names_kw[-1:]:
+        inj_sets += [['zz_absent', n], [n, 'zz_absent']]
     for inj in inj_sets:
         r = _call(update_wrapper, passthrough(f), f, injected=list(inj))
         absent = [n for n in inj if n not in names_kw]
@@ -274,6 +277,43 @@ def run(case):
     r = _call(update_wrapper, passthrough(f), f, expected=[names_kw[0]] if names_kw else ['zz_x'])
     if names_kw and (r[0] != 'exc' or r[1] != 'ExistingArgument'):
         return out.fail('c13.expected-existing', '%s: expected=[%r] (already a parameter) -> %r, expected ExistingArgument' % (desc, names_kw[0], r))
+    # ---- the original changes after it has been wrapped; wrapping it again must reflect the function as it is now ----
+    changed = []
+    if f.__defaults__:
+        f.__defaults__ = tuple(('M', i) for i in range(len(f.__defaults__)))
+        changed.append('__defaults__')
+    if f.__kwdefaults__:
+        f.__kwdefaults__ = {k: ('MK', k) for k in f.__kwdefaults__}
+        changed.append('__kwdefaults__')
+    if f.__annotations__:
+        f.__annotations__ = {k: 'Changed' for k in f.__annotations__}
+        changed.append('__annotations__')
+    f.__doc__ = 'documentation changed after the first wrapping'
+    f.__name__ = 'renamed_target'
+    sig_now = inspect.signature(f)
+    for variant in ('wraps', 'update_wrapper'):
+        r = _call(lambda: wraps(f)(passthrough(f))) if variant == 'wraps' else _call(update_wrapper, passthrough(f), f)
+        if r[0] != 'ok':
+            return out.fail('c13.wrap-raises', '%s of %s after its %s were reassigned -> %r' % (variant, desc, changed, r))
+        w = r[1]
+        sw = _call(lambda: sig_summary(inspect.signature(w, follow_wrapped=False)))
+        if sw != ('ok', sig_summary(sig_now)):
+            return out.fail('c13.signature.after-change', '%s: the function was wrapped, then its %s were reassigned, then it was wrapped again: the new '
+                            'wrapper has parameters %r, the function now has %r' % (desc, changed, sw, sig_summary(sig_now)))
+        for attr in ('__name__', '__doc__'):
+            if getattr(w, attr, 'MISSING') != getattr(f, attr):
+                return out.fail('c13.metadata.after-change', '%s: %s of a new wrapper is %r, the function now has %r' % (
+                    desc, attr, getattr(w, attr, 'MISSING'), getattr(f, attr)))
+        for k, sub in list(call_shapes(case, names_kw))[::5]:
+            args = tuple(('P', i) for i in range(k))
+            kwargs = {n: ('K', n) for n in sub}
+            a = _call(lambda: drive(f(*args, **kwargs), is_async))
+            b = _call(lambda: drive(w(*args, **kwargs), is_async))
+            if (a[0] == 'exc') != (b[0] == 'exc') or (a[0] == 'ok' and a != b):
+                return out.fail('c13.forwarding.after-change', '%s (defaults reassigned after an earlier wrapping): call with %d positional and keywords %r '
+                                'gives %r through a new wrapper, the function itself %r' % (desc, k, sorted(kwargs), b, a))
+    if changed:
+        out.label('rewrapped_after_change')
     out.label('call_shapes:%d' % (1 << max(0, shapes.bit_length() - 1)))
     if is_async:
         out.label('async')
